@@ -301,7 +301,10 @@ class Decoder(Coder):
         min_value = bit_reader.read_bytes(nbytes_min_value)
         nbits_diff = bit_reader.read_uint(NBITS_FOR_NBITS_DIFF)
 
-        if min_value in (b'\0' * nbytes_min_value or b'\xff' * nbytes_min_value):
+        # When increments follow, a local reference value of all zero bits is the empty
+        # prefix of the increments. Without increments it is the value itself
+        # (a field of NUL characters), just as when the data are not compressed.
+        if nbits_diff != 0 and min_value == b'\0' * nbytes_min_value:
             min_value = b''
 
         # special cases: all missing or all equals
